@@ -786,6 +786,13 @@ impl LdapConnAsync {
                 },
                 op_tuple = self.rx.recv() => {
                     if let Some((id, op, tag, controls, tx)) = op_tuple {
+                        if tx.is_closed() {
+                            // The caller has given up (timeout or dropped future) while the request was
+                            // still queued here: nobody would ever collect or scrub its routing entry.
+                            let mut msgmap = self.msgmap.lock().expect("msgmap mutex (stale op)");
+                            msgmap.1.remove(&id);
+                            continue;
+                        }
                         if let LdapOp::Search(ref search_tx) = op {
                             self.searchmap.insert(id, search_tx.clone());
                         }
